@@ -23,13 +23,8 @@ import traces
 AFTER_CALLS = ("flush", "fsync", "close")
 
 
-def main():
-    rep = common.Report("C13", "fault_enumeration")
-    common.use_repo()
-    thorough = rep.tier == "thorough"
-    rng = random.Random(rep.seed * 1013 + 13)
-    import csvio_model
-    nh = 150 if thorough else 30
+def fault_jobs(rng, nh, thorough, per_op=40):
+    """fault-free recordings of nh histories, then one job per (operation, I/O call index[, after-effect])"""
     hist = []
     for i in range(nh):
         g = gen.Gen(rng.randrange(1 << 30), focus={"insert": 5, "insert_multiple": 3, "remove": 4, "update": 4, "update_all": 1, "drop": 2, "remove_all": 2, "fail": 0.0, "bad": 0.0}, handles=0.1)
@@ -44,8 +39,8 @@ def main():
             if not calls or ev["exc"]:
                 continue
             ks = list(range(len(calls)))
-            if len(ks) > 40 and not thorough:
-                ks = sorted(rng.sample(ks, 40))
+            if len(ks) > per_op and not thorough:
+                ks = sorted(rng.sample(ks, per_op))
             reads = [{"op": "count", "q": {"k": "meas", "key": 0, "key2": 0, "mf": 0, "op": "noop", "v": 0, "tf": 0}, "m": -1},
                      {"op": "all", "m": -1, "sorted": 0},
                      {"op": "search", "q": g.atom(), "m": -1, "sorted": 1},
@@ -57,6 +52,16 @@ def main():
                 variants = [0] + ([1] if name in AFTER_CALLS else [])
                 for after in variants:
                     jobs.append(("h%d-op%d-k%d-%d" % (i, j, k, after), ai, ops, j, k, after, g.point(), reads))
+    return jobs
+
+
+def main():
+    rep = common.Report("C13", "fault_enumeration")
+    common.use_repo()
+    thorough = rep.tier == "thorough"
+    rng = random.Random(rep.seed * 1013 + 13)
+    nh = 150 if thorough else 30
+    jobs = fault_jobs(rng, nh, thorough)
     recorded = traces.record_faults(jobs)
     verdicts, js = traces.judge(recorded)
     byid = {t["id"]: t for t in recorded}
